@@ -21,9 +21,15 @@ import (
 	"golang.org/x/tools/go/ssa/ssautil"
 )
 
-const repoDir = "/repo"
+// repoDir is the tree under verification. Registered commands always use /repo; VERIF_REPO points the
+// engine at a scratch worktree (development aid for evaluating seeded changes), in which case evidence
+// and replays go to outDir (VERIF_OUT) instead of /verif.
+var repoDir = "/repo"
 
 var verifDir = "/verif"
+
+// outDir receives evidence/ and replays/.
+var outDir = ""
 
 // loadWorld loads package pattern pkg of /repo with the harness files overlaid into it.
 func loadWorld(pkgPattern string, harnessFiles []string) (*World, *ssa.Package, error) {
@@ -331,6 +337,19 @@ func loadKnown() map[string]KnownEntry {
 func main() {
 	if v := os.Getenv("VERIF_DIR"); v != "" {
 		verifDir = v
+	}
+	outDir = verifDir
+	if v := os.Getenv("VERIF_REPO"); v != "" && v != repoDir {
+		repoDir = filepath.Clean(v)
+		outDir = os.Getenv("VERIF_OUT")
+		if outDir == "" {
+			d, err := os.MkdirTemp("", "gosmt-out-")
+			if err != nil {
+				fmt.Fprintln(os.Stderr, err)
+				os.Exit(2)
+			}
+			outDir = d
+		}
 	}
 	if len(os.Args) < 2 {
 		fmt.Fprintln(os.Stderr, "usage: gosmt run|check ...")
